@@ -141,6 +141,30 @@ CONC = {
                 trusted_base=TB_CONC + ['the recording adapter stands for any user adapter (its own bookkeeping of pending / unacknowledged / acknowledged is the specification)'],
                 assumptions=['the adapter keeps a delivered item until Acknowledge succeeds for the id issued with that delivery (adapter contract)',
                              'an entry that cannot be decoded, or whose acknowledgement is refused, stays unacknowledged (redelivered after a crash)']),
+    'C14': dict(module='Properties.C14', file='Properties/C14.v', slices=['life'],
+                families=['lifeseq', 'lifecycle'],
+                quick_episodes=1200, thorough_episodes=15000,
+                rule='episodes of family lifeseq = generated sequences of 1..5 lifecycle calls (Bind, Pause, PauseAndWait, Resume, Stop, WaitAndStop, Restart, '
+                     'TunePool incl. n<1, context cancel, interleaved Adds), with / without WithContext and idle expiry, executed one after the other with the '
+                     'system run to rest in between, under the controlled scheduler (the asynchronous context listener, dispatcher, reaper interleave freely); '
+                     'each (call, error, Status()) record is replayed on the extracted coq/Lifecycle.v; a worker that ends Running must process a probe job; '
+                     'family lifecycle adds concurrent lifecycle calls under load (monitored); distinct_nontrivial = distinct schedule hashes',
+                trusted_base=TB_CONC,
+                assumptions=['calls are issued one after the other and the worker is at rest between them (concurrent lifecycle calls from several goroutines are explored by family lifecycle but not covered by the theorem)',
+                             'after the user\'s context is cancelled every state decays to Stopped (a Restart derives its context from the cancelled one)',
+                             '"Running means able to process" is checked by a probe job in every episode (and rests on the progress property C03)']),
+    'C17': dict(module='Properties.C17', file='Properties/C17.v', slices=['batch'],
+                families=['burst', 'lifecycle', 'saturate', 'multiq', 'persist', 'cancel', 'batch'],
+                quick_episodes=200, thorough_episodes=2500,
+                diffs=[QUEUES_DIFF, MANAGER_DIFF], diff_footprint=['L', 'HL', 'MLEN', 'E', 'D', 'H+', 'H-', 'PV', 'HPV', 'validator:'],
+                diff_oracles=['fifo.len', 'heap.len', 'mgr.len'],
+                rule='records of the queue / manager differential tests (Len after every operation, compared with the extracted models) + episodes under the controlled '
+                     'scheduler in which clients sample NumPending (queue, worker), NumProcessing, NumIdleWorkers and the metrics at arbitrary points (bounds) and at rest '
+                     '(exactness: per-queue pending = accepted - dispatched - cancelled, worker pending = sum over queues, Submitted = accepted, Completed = Successful + Failed = finished); '
+                     'distinct_nontrivial = distinct schedule hashes',
+                trusted_base=TB_CONC,
+                assumptions=['NumProcessing <= limit rests on the dispatcher reserving a slot only below the limit, with a single current event loop (C02)',
+                             'metrics counters are single atomic adds (monitored, not modelled); Metrics().Reset() is excluded']),
     'C16': dict(module='Properties.C16', file='Properties/C16.v', slices=['job'],
                 families=['burst', 'lifecycle', 'cancel'],
                 quick_episodes=350, thorough_episodes=4000,
